@@ -49,6 +49,7 @@ JOBS['C02'] = {
         vp('avoid-kkt-n3m2', 3, 2, 1, ['-DKKT'] + AV, libs=['libavoid'], bounds='Avoid::IncSolver::solve + KKT; n=3 m=2; ' + B_VPSC),
         vp('inc-kkt-resolve-n3m2', 3, 2, 1, ['-DKKT', '-DHISTORY=1'], bounds='solve / move desired positions / solve, KKT after each; n=3 m=2; ' + B_VPSC),
         vp('inc-kkt-n3m2-scaled', 3, 2, 1, ['-DKKT', '-DWEIGHTS=1,2,1', '-DSCALES=1,2,1'], bounds='weights (1,2,1) scales (1,2,1); n=3 m=2; ' + B_VPSC),
+        vp('inc-kkt-resolve-n3m3-fan', 3, 3, 1, ['-DKKT', '-DHISTORY=1', '-DSTRUCT_L=2,1,1', '-DSTRUCT_R=0,0,2'], bounds='solve / move desired positions / solve on the fixed structure x2+g0<=x0, x1+g1<=x0, x1+g2<=x2 (a block that needs several split passes); ' + B_VPSC),
     ],
     'thorough': [
         vp('inc-kkt-permute-n3m3', 3, 3, 1, ['-DKKT', '-DPERMUTE'], bounds='n=3 m=3 all structures, KKT + order independence; ' + B_VPSC),
@@ -117,7 +118,7 @@ def sepj(name, part, gapmode, **kw):
 B_SEP = 'all 2 gap types x 8 directions x 2 relations (x 7 transforms); node centres integers in [-20,20]^2, node sizes even integers in [2,12]; '
 GM = {0: 'gap any multiple of 1/2 in (0,12.5]', 1: 'gap = +0.0', 2: 'gap = -0.0'}
 JOBS['C18'] = {'quick': [sepj('%s-gap%d' % (n, g), p, g, bounds=B_SEP + GM[g] + '; ' + d)
-                         for (p, n, d) in ((0, 'commute', 'transform/geometry equivalence'), (1, 'group', 'dihedral group laws'), (2, 'storage-vpsc', '(a,b)/(b,a) storage and generated vpsc constraints'), (3, 'restore-history', 'history: an existing pair (created under either order) overwritten through either order equals a fresh store'))
+                         for (p, n, d) in ((0, 'commute', 'transform/geometry equivalence'), (1, 'group', 'dihedral group laws'), (2, 'storage-vpsc', '(a,b)/(b,a) storage and generated vpsc constraints'), (3, 'restore-history', 'history: an existing pair (created under either order) overwritten through either order equals a fresh store'), (4, 'tglf-write', 'SepPair::writeTglf output (for the constraint and its 7 transforms) re-read by a reader in the harness describes the same constraint; gap numbers not compared'))
                          for g in (0, 1, 2)],
                'thorough': []}
 ASSUMPTIONS['C18'] = ['TGLF write/read round trip is outside the claim: iostream formatting/parsing is stubbed in the executor (DESIGN.md 2.5)',
@@ -197,3 +198,40 @@ JOBS['C06'] = {
     'thorough': [Job('history-2steps', 'C06_incremental.cpp', ['-DNSTEPS=2'], ['libavoid'], bounds='same scene, every 2-step history (25 operation sequences, symbolic parameters)')],
 }
 ASSUMPTIONS['C06'] = ['orthogonal routing only (polyline costs need sqrt of symbolic values); documented preconditions respected: no add+delete of one shape in a transaction, endpoints never inside a shape']
+
+# ----------------------------------------------------------------------------------------------- C11
+def pin(name, part, extra=(), **kw):
+    return Job(name, 'C11_pins.cpp', ['-DPART=%d' % part] + list(extra), ['libavoid'], **kw)
+JOBS['C11'] = {
+    'quick': [
+        pin('pin-formula', 1, bounds='rectangle with integer min corner in [-50,50]^2 and size in [2,40]^2, inside offset in {0,1}: all 9 proportional pins + absolute MIN/MAX pins vs the documented position formula and default directions'),
+        pin('pins-1conn', 0, ['-DNCONN=1', '-DMOVE=0'], bounds='shapeBufferDistance 4; shape 40x20 at (40..50, 40..50) with exclusive LEFT and RIGHT pins of one class, 1 connector to any free point in [0,140]x[100,110]'),
+        pin('pins-1conn-move', 0, ['-DNCONN=1', '-DFREEFIX'], bounds='same shape (symbolic position), free end (60,100); the shape is then moved by any (dx,dy) in [-15,15]^2 and re-routed'),
+        pin('pins-1conn-buf0', 0, ['-DNCONN=1', '-DBUF=0', '-DMOVE=0'], bounds='same scene with shapeBufferDistance 0 (the default): the pin lies on the shape-side visibility line'),
+        pin('checkpoint', 2, bounds='connector from a free point in [0,10]x[40,60] via a checkpoint in [45,55]x[90,100] to a free point in [100,120]x[40,60], one rectangle between: raw and displayed route pass through the checkpoint'),
+        pin('junction-end', 3, bounds='connector from a free point in [0,10]x[40,60] to a junction in [100,120]x[40,60], one rectangle between'),
+        pin('checkpoint-junction', 4, bounds='checkpoint as above on a connector whose far end is attached to a junction'),
+    ],
+    'thorough': [
+        pin('pins-2conn-exclusive', 0, ['-DNCONN=2', '-DFREEFIX'], bounds='same shape, 2 connectors to the class with two exclusive pins (capacity reached), then moved'),
+        pin('pins-2conn-shared', 0, ['-DNCONN=2', '-DEXCL=false', '-DFREEFIX'], bounds='same, shared (non-exclusive) pins'),
+        pin('pins-1conn-move-free', 0, ['-DNCONN=1'], bounds='free end symbolic in [0,140]x[100,110] and symbolic move', time_limit=1500),
+    ],
+}
+ASSUMPTIONS['C11'] = ['orthogonal routing; at most 2 pins per class, 2 connectors, 1 checkpoint; rectangular shapes']
+
+# ----------------------------------------------------------------------------------------------- C15
+def life(name, subject, extra=(), libs=('libavoid',), **kw):
+    return Job(name, 'C15_lifecycle.cpp', ['-DSUBJECT=%d' % subject] + list(extra), list(libs), **kw)
+JOBS['C15'] = {
+    'quick': [
+        life('router-history-2', 1, ['-DNSTEPS=2'], bounds='orthogonal Router with shape A (2 pins, one in use), connector pin->free point (symbolic); every 2-step history over {processTransaction, add shape, move A, delete A, delete connector, add connector, move endpoint}; router destroyed with whatever is queued'),
+        life('incsolver-history-3', 2, ['-DNSTEPS=3'], libs=['libvpsc'], bounds='IncSolver on 3 variables: every 3-step history over {satisfy, solve, addConstraint(symbolic), change desired positions}; then destroy'),
+        life('fdlayout-lifecycle', 3, libs=COLA_LIBS, exclude=('libcola/output_svg.cpp',), bounds='ConstrainedFDLayout on 3 symbolic rectangles: every subset of {setConstraints, setAvoidNodeOverlaps, setUnsatisfiableConstraintInfo, makeFeasible, makeFeasible again}; destroy without run'),
+    ],
+    'thorough': [
+        life('router-history-3', 1, ['-DNSTEPS=3'], bounds='every 3-step history (as above)'),
+        life('router-history-3-immediate', 1, ['-DNSTEPS=3', '-DTRANS=0'], bounds='every 3-step history with transactions switched off'),
+    ],
+}
+ASSUMPTIONS['C15'] = ['the monitors (bounds, use-after-free, double free, uninitialised reads incl. bit-fields, division by zero, llvm.unreachable/trap, library assertions, uncaught exceptions, step budget, leak at exit) run on every path of every harness of every property; this check adds the object-lifecycle histories', 'allocation failure and threads are outside the claim; signed-overflow UB already folded by -O1 is not visible in the IR']
